@@ -77,6 +77,7 @@ func successReturns(fn *ssa.Function) []core.ReturnSite {
 		return core.Returns(fn, 0)
 	}
 	for _, rs := range core.Returns(fn, -1) {
+		core.MarkSuccessTarget(rs.Ret)
 		if rs.Val == nil {
 			out = append(out, rs)
 			continue
@@ -507,4 +508,277 @@ func constantInt64(v constant.Value) (int64, bool) {
 		return 0, false
 	}
 	return constant.Int64Val(v)
+}
+
+// ---- error gating ----------------------------------------------------------------------------
+
+// isResultOf: v is (a copy of, or a merge that includes) the error result of call.
+func isResultOf(v ssa.Value, call *ssa.Call) bool {
+	for _, o := range core.Origins(v) {
+		if o == ssa.Value(call) {
+			return true
+		}
+		if ex, ok := o.(*ssa.Extract); ok && ex.Tuple == ssa.Value(call) && ex.Index == call.Call.Signature().Results().Len()-1 {
+			return true
+		}
+	}
+	return false
+}
+
+// nilOutcomeEdge reports whether the edge b->s is the "is nil" outcome of a
+// test of call's error result.
+func nilOutcomeEdge(call *ssa.Call, b, s *ssa.BasicBlock) bool {
+	if len(b.Instrs) == 0 {
+		return false
+	}
+	ifi, ok := b.Instrs[len(b.Instrs)-1].(*ssa.If)
+	if !ok {
+		return false
+	}
+	bo, ok := ifi.Cond.(*ssa.BinOp)
+	if !ok || (bo.Op != token.EQL && bo.Op != token.NEQ) {
+		return false
+	}
+	var tested ssa.Value
+	if core.IsNilConst(bo.Y) {
+		tested = bo.X
+	} else if core.IsNilConst(bo.X) {
+		tested = bo.Y
+	} else {
+		return false
+	}
+	if !isResultOf(tested, call) {
+		return false
+	}
+	return (bo.Op == token.EQL && s == b.Succs[0]) || (bo.Op == token.NEQ && s == b.Succs[1])
+}
+
+// ungatedPath searches a path from call to the instruction `to` on which the
+// call's error result has neither been found nil nor is handed on by `to`
+// itself (a return of that very result: `return f()`, or a result variable
+// that holds it on this path). nil means `to` is reached only when the call
+// succeeded, or reports the call's own failure.
+func ungatedPath(fn *ssa.Function, call *ssa.Call, to ssa.Instruction, avoid func(ssa.Instruction) bool) []ssa.Instruction {
+	var phis []*ssa.Phi
+	if ret, ok := to.(*ssa.Return); ok && len(ret.Results) > 0 {
+		rv := ret.Results[len(ret.Results)-1]
+		if _, isPhi := rv.(*ssa.Phi); !isPhi && isResultOf(rv, call) {
+			return nil
+		}
+		seen := map[*ssa.Phi]bool{}
+		var walk func(v ssa.Value)
+		walk = func(v ssa.Value) {
+			if phi, ok := v.(*ssa.Phi); ok && !seen[phi] {
+				seen[phi] = true
+				phis = append(phis, phi)
+				for _, e := range phi.Edges {
+					walk(e)
+				}
+			}
+		}
+		walk(rv)
+	}
+	skip := func(b, s *ssa.BasicBlock) bool {
+		if nilOutcomeEdge(call, b, s) {
+			return true
+		}
+		for _, phi := range phis {
+			if phi.Block() != s {
+				continue
+			}
+			for i, pr := range s.Preds {
+				if pr == b && i < len(phi.Edges) {
+					if _, isPhi := phi.Edges[i].(*ssa.Phi); !isPhi && isResultOf(phi.Edges[i], call) {
+						return true
+					}
+				}
+			}
+		}
+		return false
+	}
+	return core.FindPathSkipping(fn, call, isInstr(to), avoid, skip)
+}
+
+// ---- comparisons, whatever way round they are written -----------------------------------------
+
+func negateCmp(op token.Token) token.Token {
+	switch op {
+	case token.EQL:
+		return token.NEQ
+	case token.NEQ:
+		return token.EQL
+	case token.LSS:
+		return token.GEQ
+	case token.GEQ:
+		return token.LSS
+	case token.GTR:
+		return token.LEQ
+	case token.LEQ:
+		return token.GTR
+	}
+	return token.ILLEGAL
+}
+
+func flipCmp(op token.Token) token.Token {
+	switch op {
+	case token.LSS:
+		return token.GTR
+	case token.GTR:
+		return token.LSS
+	case token.LEQ:
+		return token.GEQ
+	case token.GEQ:
+		return token.LEQ
+	}
+	return op
+}
+
+func impliesCmp(have, want token.Token) bool {
+	if have == want {
+		return true
+	}
+	switch want {
+	case token.LEQ:
+		return have == token.LSS || have == token.EQL
+	case token.GEQ:
+		return have == token.GTR || have == token.EQL
+	case token.NEQ:
+		return have == token.LSS || have == token.GTR
+	}
+	return false
+}
+
+// relHolds reports whether the branch outcome g establishes `x op y` for an x
+// accepted by px and a y accepted by py - with the comparison written either
+// way round and tested in either polarity (`a == b` taken, `a != b` not taken,
+// `b == a` ...).
+func relHolds(g core.Guard, op token.Token, px, py func(ssa.Value) bool) bool {
+	return condHolds(g.Cond, g.Val, op, px, py)
+}
+
+func condHolds(cond ssa.Value, val bool, op token.Token, px, py func(ssa.Value) bool) bool {
+	if u, ok := cond.(*ssa.UnOp); ok && u.Op == token.NOT {
+		return condHolds(u.X, !val, op, px, py)
+	}
+	bo, ok := cond.(*ssa.BinOp)
+	if !ok {
+		return false
+	}
+	est := bo.Op
+	if !val {
+		est = negateCmp(est)
+	}
+	if est == token.ILLEGAL {
+		return false
+	}
+	if impliesCmp(est, op) && px(bo.X) && py(bo.Y) {
+		return true
+	}
+	if impliesCmp(flipCmp(est), op) && px(bo.Y) && py(bo.X) {
+		return true
+	}
+	return false
+}
+
+// outcomeEdge reports whether the edge b->s is an outcome of b's final branch
+// that establishes `x op y` (see relHolds).
+func outcomeEdge(b, s *ssa.BasicBlock, op token.Token, px, py func(ssa.Value) bool) bool {
+	if len(b.Instrs) == 0 || len(b.Succs) != 2 || b.Succs[0] == b.Succs[1] {
+		return false
+	}
+	ifi, ok := b.Instrs[len(b.Instrs)-1].(*ssa.If)
+	if !ok {
+		return false
+	}
+	return condHolds(ifi.Cond, s == b.Succs[0], op, px, py)
+}
+
+func isConstInt(k int64) func(ssa.Value) bool {
+	return func(v ssa.Value) bool {
+		z, ok := core.ConstInt(v)
+		return ok && z == k
+	}
+}
+
+func isField(name string) func(ssa.Value) bool {
+	return func(v ssa.Value) bool {
+		_, n, ok := core.FieldOf(v)
+		return ok && n == name
+	}
+}
+
+func isVal(want ssa.Value) func(ssa.Value) bool {
+	return func(v ssa.Value) bool { return v == want }
+}
+
+func anyVal(ssa.Value) bool { return true }
+
+// callsTransitively reports whether fn (with its literals) calls the named
+// function directly or through statically resolved calls to functions of the
+// same package (helpers), to a small depth.
+func callsTransitively(fn *ssa.Function, name string) bool {
+	seen := map[*ssa.Function]bool{}
+	var walk func(f *ssa.Function, d int) bool
+	walk = func(f *ssa.Function, d int) bool {
+		if f == nil || seen[f] || d > 4 {
+			return false
+		}
+		seen[f] = true
+		if len(core.Calls(f, true, name)) > 0 {
+			return true
+		}
+		found := false
+		for _, g := range core.WithAnons(f) {
+			core.Instrs(g, func(in ssa.Instruction) {
+				if found {
+					return
+				}
+				if cl, ok := in.(ssa.CallInstruction); ok {
+					if cal := cl.Common().StaticCallee(); cal != nil && core.PkgPathOf(cal) == core.PkgPathOf(fn) && len(cal.Blocks) > 0 {
+						if walk(cal, d+1) {
+							found = true
+						}
+					}
+				}
+			})
+		}
+		return found
+	}
+	return walk(fn, 0)
+}
+
+// constCase is one constant a value can take, with the branch outcomes that
+// hold when it does.
+type constCase struct {
+	k      int64
+	guards []core.Guard
+}
+
+// constCases enumerates the integer constants v can be at instruction at: v
+// itself if it is a constant, or the constant leaves of a phi (of phis), each
+// with the outcomes that hold on the edge that selects it.
+func constCases(v ssa.Value, at ssa.Instruction) []constCase {
+	var out []constCase
+	seen := map[*ssa.Phi]bool{}
+	var walk func(v ssa.Value, guards []core.Guard)
+	walk = func(v ssa.Value, guards []core.Guard) {
+		v = core.StripConv(v)
+		if k, ok := core.ConstInt(v); ok {
+			out = append(out, constCase{k, guards})
+			return
+		}
+		phi, ok := v.(*ssa.Phi)
+		if !ok || seen[phi] {
+			return
+		}
+		seen[phi] = true
+		b := phi.Block()
+		for i, e := range phi.Edges {
+			if i < len(b.Preds) {
+				walk(e, core.EdgeGuards(b.Preds[i], b))
+			}
+		}
+	}
+	walk(v, core.Guards(at))
+	return out
 }
